@@ -316,27 +316,28 @@ The whole store and the flag go through preprocessing (`preEnv`, `preprocessFlag
 same as with the hand-built store and flag. -/
 
 def preprocessStore (rx : RegexOracle) (st : Store) : Store :=
-  { flags := st.flags.map (preprocessFlag rx), segments := st.segments.map (preprocessSegment rx) }
+  { flags := st.flags.map fun e => (e.1, preprocessFlag rx e.2),
+    segments := st.segments.map fun e => (e.1, preprocessSegment rx e.2) }
 
 /-- The same environment with every flag and segment of the store preprocessed. -/
 def preEnv (env : Env) : Env := { env with store := preprocessStore env.rx env.store }
 
 def PlainStore (st : Store) : Prop :=
-  (∀ f ∈ st.flags, PlainFlag f) ∧ (∀ s ∈ st.segments, PlainSegment s)
+  (∀ f ∈ st.flags.map (·.2), PlainFlag f) ∧ (∀ s ∈ st.segments.map (·.2), PlainSegment s)
 
 theorem findSegment_preprocess (rx : RegexOracle) (st : Store) (k : String) :
     (preprocessStore rx st).findSegment k = (st.findSegment k).map (preprocessSegment rx) := by
   unfold Store.findSegment preprocessStore
-  rw [List.find?_map]; rfl
+  rw [List.find?_map, Option.map_map, Option.map_map]; rfl
 
 theorem findFlag_preprocess (rx : RegexOracle) (st : Store) (k : String) :
     (preprocessStore rx st).findFlag k = (st.findFlag k).map (preprocessFlag rx) := by
   unfold Store.findFlag preprocessStore
-  rw [List.find?_map]; rfl
+  rw [List.find?_map, Option.map_map, Option.map_map]; rfl
 
 section model
 variable (env : Env) (rec rec' : SegRec)
-  (hrec : ∀ seg ∈ env.store.segments, ∀ chain st,
+  (hrec : ∀ seg ∈ env.store.segments.map (·.2), ∀ chain st,
     rec' (preprocessSegment env.rx seg) chain st = rec seg chain st)
 include hrec
 
@@ -355,7 +356,7 @@ theorem segMatchValues_store (negate : Bool) (chain : List String) (vs : List J)
       cases hs : env.store.findSegment k with
       | none => simp only [Option.map_none, ih]
       | some seg =>
-        simp only [Option.map_some, hrec seg (List.mem_of_find?_eq_some hs), ih]
+        simp only [Option.map_some, hrec seg (Store.findSegment_mem hs), ih]
     | null => simp only [segMatchValues, ih]
     | bool b => simp only [segMatchValues, ih]
     | num q => simp only [segMatchValues, ih]
@@ -442,10 +443,10 @@ theorem isExperimentResult_preprocess (rx : RegexOracle) (f : Flag) (r : Reason)
 
 section flags
 variable (env : Env) (seg seg' : SegRec)
-  (hseg : ∀ s ∈ env.store.segments, ∀ chain st,
+  (hseg : ∀ s ∈ env.store.segments.map (·.2), ∀ chain st,
     seg' (preprocessSegment env.rx s) chain st = seg s chain st)
   (rec rec' : FlagRec)
-  (hrec : ∀ pf ∈ env.store.flags, ∀ chain st,
+  (hrec : ∀ pf ∈ env.store.flags.map (·.2), ∀ chain st,
     rec' (preprocessFlag env.rx pf) chain st = rec pf chain st)
 
 include hrec in
@@ -462,7 +463,7 @@ theorem prereqLoop_store (f : Flag) (chain : List String) (ps : List Prereq) (st
     cases hs : env.store.findFlag p.key with
     | none => rfl
     | some pf =>
-      simp only [Option.map_some, hrec pf (List.mem_of_find?_eq_some hs), ih,
+      simp only [Option.map_some, hrec pf (Store.findFlag_mem hs), ih,
         isExperimentResult_preprocess]
       rfl
 
